@@ -275,7 +275,7 @@ func (v *V) slot(rv reflect.Value, depth int) M {
 		}
 		kvs := make([]kv, len(keys))
 		for i, k := range keys {
-						tv := &V{p: v.p, seen: map[ident]int{}, Nodes: []M{}}
+			tv := &V{p: v.p, seen: map[ident]int{}, Nodes: []M{}}
 			ks := tv.slot(k, 0)
 			kj, _ := json.Marshal([]interface{}{ks, tv.Nodes}) // struct keys: their fields order the entries
 			kvs[i] = kv{string(kj), k}
@@ -306,8 +306,8 @@ func (v *V) objNode(e reflect.Value) M {
 	n := M{"k": "obj", "t": v.p.TypeID(t)}
 	fs := make([]M, t.NumField())
 	for i := 0; i < t.NumField(); i++ {
-		if t.Field(i).PkgPath != "" { // unexported: not part of any zoo type
-			fs[i] = M{"k": "nil"}
+		if t.Field(i).PkgPath != "" { // not exported: cannot be represented (the decoder could not set it)
+			fs[i] = M{"k": "bad", "g": "unexported"}
 			continue
 		}
 		fs[i] = v.slot(e.Field(i), 0)
